@@ -62,6 +62,7 @@ struct FaultBox
 {
   int malloc_fail = 0; // next N sandbox allocations return 0
   int malloc_straddle = 0; // next allocation returns a block touching the end
+  int malloc_at_end = 0; // next allocation returns (if that space is free) the block whose last byte is the last byte of the region
   int malloc_wild = 0; // next allocation returns a guest pointer beyond the region; its translation (once) is base + that value
   int create_fail = 0; // next impl_create_sandbox returns false
   int grant_refuse = 0; // next grant/deny says success=false
@@ -530,6 +531,7 @@ protected:
   {
     SIM_YIELD("impl_malloc");
     n_mallocs++;
+    last_malloc_at_end = false;
     if (sim::g_fault.malloc_fail > 0) {
       sim::g_fault.malloc_fail--;
       if (sim::g_ctx)
@@ -547,6 +549,24 @@ protected:
       wild_rep_once = (uint32_t)(mem.size + 64);
       sim::bev("backend malloc(%zu) -> %u (beyond the region, injected)", size, wild_rep_once);
       return mkrep(wild_rep_once);
+    }
+    if (sim::g_fault.malloc_at_end > 0) {
+      sim::g_fault.malloc_at_end--;
+      if (size > 0 && size <= mem.size - 16) {
+        uint32_t off = (uint32_t)(mem.size - size);
+        bool clash = false;
+        for (auto& [o, s] : used)
+          if ((uint64_t)o + s > off)
+            clash = true;
+        if (!clash) {
+          used[off] = (uint32_t)size;
+          last_malloc_at_end = true;
+          if (sim::g_ctx)
+            sim::g_ctx->fired("F4_sbx_malloc_block_ends_at_last_byte");
+          sim::bev("backend malloc(%zu) -> %u (top of the region, injected)", size, off);
+          return mkrep(off);
+        }
+      }
     }
     if (sim::g_fault.malloc_straddle > 0) {
       sim::g_fault.malloc_straddle--;
@@ -803,6 +823,7 @@ public:
   }
 
   RLBOX_SHARED_LOCK(table_lock);
+  bool last_malloc_at_end = false;
   uintptr_t rem_base = 0; // what the object remembers about its memory (not reset by destroy / failed create)
   size_t rem_size = 0;
   static inline thread_local bool in_finder = false;
